@@ -91,6 +91,8 @@ def source_of(v: Any, uid_placeholder: str = "{uid}") -> str | None:
 def conforms(v: Any, a: dict, mod: CF.Module) -> bool | None:
     """True / False / None (left open by the statement)."""
     k = a["k"]
+    if k == "annotated":
+        return conforms(v, a["of"], mod)
     if k == "scalar":
         n = a["n"]
         if n == "int":
@@ -175,6 +177,8 @@ ODD_NAMES = ["content", "con", "tent", "on", "i", "d", "c", "o", "n", "t", "e", 
 
 def gen_conforming(a: dict, d: Det) -> Any:
     k = a["k"]
+    if k == "annotated":
+        return gen_conforming(a["of"], d)
     if k == "scalar":
         return d.pick({"int": [0, 1, -1, {"big": 1}, 7], "float": [0.0, 1.5, 1, 0], "str": ["", "a", "NodeA"],
                        "bool": [True, False, False], "bytes": [{"bytes": "x"}]}[a["n"]])
